@@ -7,7 +7,9 @@ import itertools
 
 def members(C):
     return [('fixed', C.Int16ub, b'\x01\x02'), ('pref', C.Prefixed(C.Byte, C.GreedyBytes), b'\x02xy'), ('parr', C.PrefixedArray(C.Byte, C.Byte), b'\x02\x07\x08'),
-            ('cstr', C.CString('ascii'), b'ab\x00'), ('byte', C.Byte, b'\x09'), ('vint', C.VarInt, b'\x85\x01')]
+            ('cstr', C.CString('ascii'), b'ab\x00'), ('byte', C.Byte, b'\x09'), ('vint', C.VarInt, b'\x85\x01'),
+            # measures itself by reading its count, then cannot say the size of its elements: _actualsize raises after consuming
+            ('parrs', C.PrefixedArray(C.Byte, C.CString('ascii')), b'\x02a\x00bc\x00')]
 
 
 def _plain(C, v):
@@ -25,7 +27,7 @@ def run(C):
     ms = members(C)
     # Lazy(x) followed by a sentinel: same value when forced, same final position
     for name, con, enc in ms:
-        if name in ('cstr', 'vint'):
+        if name in ('cstr', 'vint', 'parrs'):
             continue        # Lazy needs a measurable member (documented limitation): unsizable members are only claimed for LazyStruct / LazyArray
         n += 1
         data = enc + b'\x55\x66'
@@ -44,6 +46,7 @@ def run(C):
         data = b''.join(c[2] for c in combo) + b'\x77'
         eager = C.Struct(*[c[0] / c[1] for c in combo], 'z' / C.Byte)
         lazy = C.Struct('s' / C.LazyStruct(*[c[0] / c[1] for c in combo]), 'z' / C.Byte)
+        # (members are Renamed here, which hides an own _actualsize; the bare form is exercised through LazyArray below)
         try:
             e = eager.parse(data)
         except Exception:
